@@ -612,6 +612,86 @@ def run(chk):
                         "Z": Zf.tolist() if cond else None, "returned": v, "signed_sum": raw, "floored": floor})
                 break
 
+    # near-duplicate observations: k-th neighbour distances between 1e-10 and 1e-6 (ordinary tie-free samples, far above the
+    # code's 1e-12 guard).  k = 1 (two-point neighbourhoods: a single singular value) or d = 1, so that no neighbourhood is
+    # ill-conditioned.  Formula and the scale law with a power of two (exact in floats); shifts / rotations would perturb
+    # distances of 1e-8 by rounding of the coordinates and are not checked here.
+    t = 0
+    while t < (12 if quick else 300):
+        d = int(rng.integers(1, 6))
+        k = 1 if d > 1 else int(rng.integers(1, 4))
+        N = int(rng.integers(k + 4, 31))
+        X = float_sample(N, d)
+        m = int(rng.integers(1, 4))
+        for j in range(m):                      # m clusters of k+1 points within 1e-10 .. 1e-6 of each other
+            base_pt = X[j * (k + 1)]
+            for q in range(1, k + 1):
+                if j * (k + 1) + q < N:
+                    X[j * (k + 1) + q] = base_pt + rng.normal(size=d) * 10.0 ** rng.uniform(-10, -6.5) * (q + rng.random())
+        try:
+            ref = ref_entropy(X, k)
+        except Degenerate as e:
+            chk.count(f"neardup.skipped.{e}")
+            continue
+        t += 1
+        h = H(X, k)
+        chk.case(key=("neardup", X.tobytes(), k), nontrivial=True)
+        chk.count("neardup.cases")
+        base = {"k": k, "N": N, "d": d, "X": X.tolist(), "returned": h, "formula": ref}
+        if not math.isfinite(h) or abs(h - ref) > TOL:
+            report(f"geometric_knn_entropy on a sample with near-duplicate observations (k-th neighbour distances down to 1e-10; N={N}, "
+                   f"d={d}, k={k}) returned {h}; the published formula evaluated independently gives {ref}", base)
+            continue
+        a = 2.0 ** int(rng.integers(-3, 4))
+        ha = H(a * X, k)
+        if not math.isfinite(ha) or abs(ha - h - d * math.log(a)) > TOL:
+            report(f"scale law H(a X) = H(X) + d ln a, a={a}, on a sample with near-duplicate observations: H(aX) - H(X) = {ha - h}, "
+                   f"required {d * math.log(a)} (N={N}, d={d}, k={k})", {**base, "a": a, "returned_scaled": ha})
+
+    # the signed sums for the other metrics the estimator functions accept: each entropy is the code's own
+    # geometric_knn_entropy of the stacked sample with cdist in THAT metric (what "documented signed sum of such entropies" means
+    # there; the entropy laws themselves are claimed for the Euclidean metric only)
+    from scipy.spatial.distance import cdist as _cdist
+    t = 0
+    while t < (16 if quick else 300):
+        metric = str(rng.choice(["cityblock", "chebyshev"]))
+        cond = rng.random() < 0.7
+        dx, dy = int(rng.integers(1, 3)), int(rng.integers(1, 3))
+        dz = int(rng.integers(1, 6 - dx - dy)) if cond else 0
+        k = int(rng.integers(1, 6))
+        N = int(rng.integers(k + 3, 36))
+        W = float_sample(N, dx + dy + dz)
+        Xf, Yf, Zf = W[:, :dx].copy(), W[:, dx:dx + dy].copy(), W[:, dx + dy:].copy()
+        via = str(rng.choice(["direct", "dispatcher"]))
+
+        def Hm(S_):
+            return float(ent_mod.geometric_knn_entropy(S_, _cdist(S_, S_, metric=metric), k))
+        import warnings as _w
+        with _w.catch_warnings():
+            _w.simplefilter("ignore")
+            if cond:
+                raw = Hm(np.hstack((Xf, Zf))) + Hm(np.hstack((Yf, Zf))) - Hm(W) - Hm(Zf)
+                v = float(geometric_knn_conditional_mutual_information(Xf, Yf, Zf, metric=metric, k=k) if via == "direct" else
+                          conditional_mutual_information(Xf, Yf, Zf, method="geometric_knn", metric=metric, k=k))
+                expect = max(0.0, raw) if via == "dispatcher" else raw
+            else:
+                raw = Hm(Xf) + Hm(Yf) - Hm(W)
+                v = float(geometric_knn_mutual_information(Xf, Yf, metric=metric, k=k))
+                expect = max(0.0, raw)
+        if not math.isfinite(raw):
+            chk.count("metric_sum.skipped_nonfinite")
+            continue
+        t += 1
+        chk.case(key=("msum", W.tobytes(), metric, k, cond, via), nontrivial=True)
+        chk.count(f"metric_sum.{metric}.{'cmi' if cond else 'mi'}")
+        if not math.isfinite(v) or abs(v - expect) > TOL:
+            report(f"geometric {'conditional ' if cond else ''}mutual information (metric={metric}, via {via}, k={k}, N={N}) returned {v}; the "
+                   f"signed sum of geometric_knn_entropy of the stacked samples with {metric} distances is {raw}",
+                   {"metric": metric, "via": via, "k": k, "X": Xf.tolist(), "Y": Yf.tolist(), "Z": Zf.tolist() if cond else None,
+                    "returned": v, "signed_sum": raw})
+        if not (np.array_equal(Xf, W[:, :dx]) and np.array_equal(Yf, W[:, dx:dx + dy]) and np.array_equal(Zf, W[:, dx + dy:])):
+            report(f"geometric (conditional) mutual information (metric={metric}) modified its argument arrays", {"metric": metric, "k": k})
+
     chk.rule = ("Grid samples (integer range 120 and dyadic grids 2^-8..2^-18, isotropic and anisotropic, tie-free by exact test), N k+2..40, "
                 "d 1..5, k 1..8: the implementation runs with a spy on numpy.linalg.svd; the recorded singular values (after a numeric check) "
                 "and the inside-counts recomputed from the checked factors enter the Coq model as exact rationals, and the returned entropy "
@@ -624,5 +704,5 @@ def run(chk):
                 "estimator functions and the dispatcher. Arbitrary affine-mixed Gaussian floats (scales 0.1..10): the entropy against the "
                 "explicit-loop evaluation of the published formula, the four laws with Haar orthogonal maps, shifts up to 1e4 x the data "
                 "scale, a in [0.1, 10], and the MI/CMI signed sums incl. the Z=None default-k path, each sample evaluated for k, another k, and k "
-                "again in sequence (every call must return the signed sum for its own k); all at 1e-8. Non-generic samples "
+                "again in sequence (every call must return the signed sum for its own k); samples with near-duplicate observations (k-th neighbour distances 1e-10..1e-6, k = 1 or d = 1): formula and power-of-two scale law; cityblock / chebyshev metrics: MI / CMI = signed sum of the code's own entropies of the stacked samples with distances in that metric; all at 1e-8. Non-generic samples "
                 "(guards / ellipsoid boundary / near-ties within rounding) are regenerated and counted.")
